@@ -58,9 +58,11 @@ let parse_line (l : string) : line option =
 
 (* inline assembly vocabulary with a known meaning (everything else faults) *)
 let inl_sem (t : char list) (s : mstate) : mstate option =
-  match String.lowercase_ascii (String.trim (implode t)) with
+  (* the text up to a ';' comment *)
+  let whole = implode t in
+  let code = match String.index_opt whole ';' with Some i -> String.sub whole 0 i | None -> whole in
+  match String.lowercase_ascii (String.trim code) with
   | "nop" | "" -> Some s
-  | x when String.length x > 0 && x.[0] = ';' -> Some s
   | _ -> None
 
 let ext_call (_ : char list) (_ : mstate) : mstate option = None
